@@ -14,6 +14,7 @@ import (
 	"fmt"
 	"os"
 	"path"
+	"path/filepath"
 	"sort"
 	"strings"
 
@@ -49,6 +50,50 @@ type reqCase struct {
 	Global  []string   `json:"global"`
 	Reg     []string   `json:"reg"`
 	Calls   []topCall  `json:"calls"`
+	// Real: the tree is written to a temporary directory and served by require.DefaultSourceLoader with the default
+	// path resolver (the "real directories" half of C02); the protocol line is the same, with the directory prefix removed
+	Real bool `json:"real,omitempty"`
+}
+
+// realRoot is the temporary directory of the case being run in Real mode ("" otherwise)
+var realRoot string
+
+func abs(p string) string {
+	if realRoot != "" && strings.HasPrefix(p, "/") {
+		return realRoot + p
+	}
+	return p
+}
+
+func unabs(p string) string {
+	if realRoot != "" && strings.HasPrefix(p, realRoot) {
+		if q := p[len(realRoot):]; q == "" {
+			return "/"
+		} else {
+			return q
+		}
+	}
+	return p
+}
+
+// realEligible: the case can be laid out on a real file system and does not depend on the process's working directory
+func realEligible(c reqCase) bool {
+	for _, tc := range c.Calls {
+		if !strings.HasPrefix(tc.Script, "/") {
+			return false
+		}
+	}
+	for _, f := range c.Files {
+		if !strings.HasPrefix(f.Path, "/") || strings.Contains(f.Path, "\x00") {
+			return false
+		}
+		for _, g := range c.Files {
+			if strings.HasPrefix(g.Path, f.Path+"/") {
+				return false // a name that is a file and a directory at once exists only in a virtual tree
+			}
+		}
+	}
+	return len(c.Files) > 0
 }
 
 // process-wide registrations (RegisterCoreModule / RegisterNativeModule are global)
@@ -65,7 +110,8 @@ type runner struct {
 		o *goja.Object
 		p string
 	}
-	thrown map[string]goja.Value
+	thrown  map[string]goja.Value
+	escaped bool // Real mode: a request left the temporary directory
 }
 
 var current *runner // the runner whose loaders / hooks are active
@@ -203,9 +249,9 @@ func bodySource(f fileSpec) string {
 			fmt.Fprintf(&sb, "exports[%s] = true;\n", jsString(a.A))
 		case "R":
 			if a.C {
-				fmt.Fprintf(&sb, "try { var m = require(%s); __got(%s, m); } catch (e) { __caught(%s, e); }\n", jsString(a.A), jsString(a.A), jsString(a.A))
+				fmt.Fprintf(&sb, "try { var m = require(%s); __got(%s, m); } catch (e) { __caught(%s, e); }\n", jsString(abs(a.A)), jsString(a.A), jsString(a.A))
 			} else {
-				fmt.Fprintf(&sb, "{ var m = require(%s); __got(%s, m); }\n", jsString(a.A), jsString(a.A))
+				fmt.Fprintf(&sb, "{ var m = require(%s); __got(%s, m); }\n", jsString(abs(a.A)), jsString(a.A))
 			}
 		case "T":
 			fmt.Fprintf(&sb, "throw __mkthrow(%s);\n", jsString(a.A))
@@ -222,6 +268,25 @@ func execCase(c reqCase) (out string) {
 	}()
 	r := &runner{thrown: map[string]goja.Value{}}
 	current = r
+	realRoot = ""
+	if c.Real {
+		d, err := os.MkdirTemp("", "verif-req-")
+		if err != nil {
+			return "PANIC cannot create a temporary directory: " + err.Error()
+		}
+		if rd, err := filepath.EvalSymlinks(d); err == nil {
+			d = rd
+		}
+		defer os.RemoveAll(d)
+		realRoot = d
+		defer func() { realRoot = "" }()
+		for _, f := range c.Files {
+			os.MkdirAll(filepath.Dir(d+f.Path), 0o755)
+			if err := os.WriteFile(d+f.Path, []byte(bodySource(f)), 0o644); err != nil {
+				return "PANIC cannot write the tree: " + err.Error()
+			}
+		}
+	}
 	files := map[string]string{}
 	for _, f := range c.Files {
 		files[f.Path] = bodySource(f)
@@ -232,21 +297,42 @@ func execCase(c reqCase) (out string) {
 	}
 	opts := []require.Option{
 		require.WithLoader(func(p string) ([]byte, error) {
+			if c.Real {
+				if !strings.HasPrefix(p, realRoot+"/") {
+					// the node_modules walk goes on above the tree, up to the root of the host file system: nothing there.
+					// Any other path outside the tree means the request climbed above the virtual root ("/.." is "/"
+					// in the virtual tree and the parent of the temporary directory here): not comparable.
+					if !strings.Contains(p, "/node_modules/") {
+						r.escaped = true
+					}
+					return require.DefaultSourceLoader(p)
+				}
+				p = unabs(p)
+			}
 			if path.Base(p) != "package.json" {
 				r.emit("L", hs(p))
 			}
 			if loadErr[p] {
 				return nil, errors.New("LOADERR")
 			}
+			if c.Real {
+				return require.DefaultSourceLoader(abs(p))
+			}
 			if s, ok := files[p]; ok {
 				return []byte(s), nil
 			}
 			return nil, require.ModuleFileDoesNotExistError
 		}),
-		require.WithPathResolver(func(base, p string) string { return path.Join(base, p) }),
+	}
+	if !c.Real {
+		opts = append(opts, require.WithPathResolver(func(base, p string) string { return path.Join(base, p) }))
 	}
 	if len(c.Global) > 0 {
-		opts = append(opts, require.WithGlobalFolders(c.Global...))
+		gl := make([]string, len(c.Global))
+		for i, gdir := range c.Global {
+			gl[i] = abs(gdir)
+		}
+		opts = append(opts, require.WithGlobalFolders(gl...))
 	}
 	reg := require.NewRegistry(opts...)
 	for _, n := range c.Reg {
@@ -261,8 +347,8 @@ func execCase(c reqCase) (out string) {
 			r.fileOf = append(r.fileOf, struct {
 				o *goja.Object
 				p string
-			}{ex, filename})
-			r.emit("E", hs(filename), r.idOf(ex))
+			}{ex, unabs(filename)})
+			r.emit("E", hs(unabs(filename)), r.idOf(ex))
 		}
 	})
 	vm.Set("__got", func(spelling string, m goja.Value) {
@@ -291,7 +377,7 @@ func execCase(c reqCase) (out string) {
 	vm.Set("__toperr", func(e goja.Value) { r.emit("X", r.errTok(e, nil)) })
 	for _, tc := range c.Calls {
 		if tc.Script == "" {
-			v, err := rm.Require(tc.Spell)
+			v, err := rm.Require(abs(tc.Spell))
 			if err != nil {
 				r.emit("X", r.errTok(nil, err))
 			} else {
@@ -303,13 +389,16 @@ func execCase(c reqCase) (out string) {
 			}
 			continue
 		}
-		src := fmt.Sprintf("try { __topok(require(%s)); } catch (e) { __toperr(e); }", jsString(tc.Spell))
-		if _, err := vm.RunScript(tc.Script, src); err != nil {
+		src := fmt.Sprintf("try { __topok(require(%s)); } catch (e) { __toperr(e); }", jsString(abs(tc.Spell)))
+		if _, err := vm.RunScript(abs(tc.Script), src); err != nil {
 			r.emit("X", "script-error:"+hs(err.Error()))
 		}
 	}
 	// the native loader cannot know the requested spelling; patch "?name" tokens: the driver prints the
 	// requested spelling, which for a first load equals the registered name or "node:"+name
+	if r.escaped {
+		return "ESCAPED"
+	}
 	return strings.Join(r.log, " ")
 }
 
@@ -390,7 +479,13 @@ func (g *gen) spelling(fromDir string, relRoot bool) string {
 		if relRoot {
 			return "./" + stem
 		}
-		return dirsAbs[r.Intn(3)] + "/" + stem + []string{"", ".js", "/index.js", "/lib.js"}[r.Intn(4)]
+		// absolute requests, one in three with a detour that only lexical cleaning removes
+		sep := "/"
+		if r.Chance(33) {
+			sep = []string{"/./", "//", "/lib/../", "/../" + "app/"}[r.Intn(3)]
+			g.st.Hit("spelling:absolute-detour")
+		}
+		return dirsAbs[r.Intn(3)] + sep + stem + []string{"", ".js", "/index.js", "/lib.js"}[r.Intn(4)]
 	case x < 55:
 		return "./" + stem + "/../" + stems[r.Intn(len(stems))]
 	case x < 58:
@@ -740,8 +835,18 @@ func emit(w *bufio.Writer, st *hx.Stats, c reqCase) {
 			st.Hit("event:" + strings.TrimSpace(k))
 		}
 	}
+	if c.Real && out == "ESCAPED" {
+		st.Hit("mode:real-directory-escaped")
+		return
+	}
 	fmt.Fprintf(w, "#REQJSON %s\n", jb)
 	fmt.Fprintf(w, "%s => %s\n", lineOf(c), out)
+	if !c.Real && realEligible(c) && len(jb)%4 == 0 {
+		// the same case on a real directory with the default loader and path resolver
+		c.Real = true
+		st.Hit("mode:real-directory")
+		emit(w, st, c)
+	}
 }
 
 func main() {
